@@ -94,6 +94,7 @@ type Prover struct {
 	Facts     []Fact
 	loopHeads map[*ssa.BasicBlock]bool
 	seenLen   map[string]bool
+	found     map[*ssa.Call]bool
 }
 
 // LoopHeads returns the blocks of fn that are targets of a back edge.
@@ -248,7 +249,7 @@ func isIntType(t types.Type) bool {
 
 // NewProver collects the facts on the path up to (not including) instruction site.
 func NewProver(fn *ssa.Function, path *Path, site ssa.Instruction, extra []Fact) *Prover {
-	p := &Prover{Fn: fn, Path: path, loopHeads: LoopHeads(fn), seenLen: map[string]bool{}}
+	p := &Prover{Fn: fn, Path: path, loopHeads: LoopHeads(fn), seenLen: map[string]bool{}, found: map[*ssa.Call]bool{}}
 	p.Facts = append(p.Facts, extra...)
 	done := false
 	for bi, b := range path.Blocks {
@@ -272,6 +273,23 @@ func NewProver(fn *ssa.Function, path *Path, site ssa.Instruction, extra []Fact)
 				continue
 			}
 			p.condFacts(iff.Cond, taken)
+		}
+	}
+	// a search result that the path's facts show to be ≥ 0 (however the test was spelled) lies inside its haystack
+	for _, b := range path.Blocks {
+		for _, in := range b.Instrs {
+			if in == site {
+				return p
+			}
+			call, ok := in.(*ssa.Call)
+			if !ok || p.found[call] {
+				continue
+			}
+			if cal := StaticCallee(&call.Call); cal != nil && cal.Pkg != nil && cal.Pkg.Pkg.Path() == "bytes" && (cal.Name() == "Index" || cal.Name() == "LastIndex") {
+				if ok, _ := p.Prove(p.Lin(call)); ok {
+					p.foundFacts(call)
+				}
+			}
 		}
 	}
 	return p
@@ -407,6 +425,10 @@ func (p *Prover) foundFacts(v ssa.Value) {
 	if cal == nil || cal.Pkg == nil || cal.Pkg.Pkg.Path() != "bytes" || (cal.Name() != "Index" && cal.Name() != "LastIndex") {
 		return
 	}
+	if p.found[call] {
+		return
+	}
+	p.found[call] = true
 	r := p.Lin(call)
 	p.add(r, p.name(call)+" ≠ -1 ⇒ ≥ 0")
 	// r + len(needle) ≤ len(haystack)
